@@ -60,10 +60,10 @@ add('C18', 'fault_enumeration', 'exhaustive termination-point x extractor-kind e
     'Harness clock replaces time()/datetime in tape_recorder (seams found by scanning); timestamp expected in UTC as on the pinned tree.')
 
 add('C09', 'model_checking', 'explicit-state BFS over run histories on one real recorder object (state = canonical recorder fields) + exhaustive depth-bounded histories with differential probes vs a fresh recorder',
-    'BFS over a 36-letter alphabet of runs (normal, raising, interrupted at three places, discarded four ways, sampled out, forced, failing save / '
+    'BFS over a 39-letter alphabet of runs (normal, raising, interrupted at three places, discarded four ways, sampled out, forced, failing save / '
     'extractor / metadata write, skipped, disabled, worker-thread interceptions, seven kinds of replay) on ONE recorder: the canonical state '
     '(all instance attributes + interception flag on main and pool thread) is searched to closure and the idle invariant is checked in every state; '
-    'in addition every history up to depth 2 (quick) / 3 (thorough) is followed by each of 7 probes whose recording / Playback must equal the same '
+    'in addition every history up to depth 2 (quick) / 3 (thorough) is followed by each of 10 probes whose recording / Playback must equal the same '
     'probe on a fresh recorder.',
     'RNG abstracted to the draw counter; recorder state = instance attributes + thread-local flag (module-level state is only covered by the probes).')
 add('C17', 'model_checking', 'exhaustive decision table with scripted draws + explicit-state history search over classes sharing one recorder + deterministic seeded differential runs',
